@@ -48,10 +48,6 @@ structure DataWorld (V : Type) extends World V where
   neq : V → V → M Bool
   /-- some dependency of the provided fields is missing, base.py:491-503 -/
   depsLack : List Nat → Bool
-  /-- `__post_init__` / `__validate__` (developer hook) -/
-  postInit : M Unit
-  /-- the decorated function itself (binding + body) -/
-  body : List V → List (Nat × V) → M V
 
 variable {V : Type}
 
@@ -259,18 +255,19 @@ def parserCall (W : DataWorld V) (L : Legacy) (o : Opts) (P : ParserDecl V) (dat
 
 /-! ### generated `__init__` and init_dataclass — cls.py:482-500, 551-591 -/
 
-/-- `Schema(**kwargs)` / `DataClass(**kwargs)`: parse, then attributes, then the developer's post-init -/
-def classInit (W : DataWorld V) (L : Legacy) (o : Opts) (P : ParserDecl V) (kwargs : List (Nat × V)) :
-    M (List (Nat × V)) := do
+/-- `Schema(**kwargs)` / `DataClass(**kwargs)`: parse, then attributes, then the developer's
+`__post_init__` / `__validate__` hook (`postInit`, a parameter: it is not the library's code) -/
+def classInit (W : DataWorld V) (L : Legacy) (o : Opts) (P : ParserDecl V) (postInit : M Unit)
+    (kwargs : List (Nat × V)) : M (List (Nat × V)) := do
   let values ← parserCall W L o P kwargs
   emit .attrsSet
-  W.postInit
+  postInit
   emit .postInit
   pure values
 
 /-- `cls.__from__(data)` / `init_dataclass(cls, data)` -/
-def initDataclass (W : DataWorld V) (L : Legacy) (o : Opts) (P : ParserDecl V) (data : V) :
-    M (List (Nat × V)) := do
+def initDataclass (W : DataWorld V) (L : Legacy) (o : Opts) (P : ParserDecl V) (postInit : M Unit)
+    (data : V) : M (List (Nat × V)) := do
   let d ← tryExcept (do
       let d ← if W.isMapping data then pure data
         else if o.noExplicitCast then raise (builtinExc K.typeError)
@@ -278,7 +275,7 @@ def initDataclass (W : DataWorld V) (L : Legacy) (o : Opts) (P : ParserDecl V) (
       if o.castKeywordStr then W.castKeys d else pure d)
     (fun e => raise (wrap Site.initDataclass e))
   let kwargs ← W.unpack d
-  classInit W L o P kwargs
+  classInit W L o P postInit kwargs
 
 /-! ### FunctionParser — func.py:576-712, 933-954 -/
 
@@ -351,12 +348,13 @@ def parseResult (W : DataWorld V) (o : Opts) (F : FuncDecl V) (r : V) : M V :=
       handleError o (wrap Site.result e) true
       pure r)
 
-/-- func.py:933-954 with parse_params = parse_result = True -/
-def syncCall (W : DataWorld V) (L : Legacy) (o : Opts) (F : FuncDecl V) (args : List V)
-    (kwargs : List (Nat × V)) : M V := do
-  let (pa, kw) ← parseParams W L o F args kwargs
+/-- func.py:933-954 with parse_params = parse_result = True.  `body` is the decorated function
+(Python's binding of the produced arguments + the developer's code): a parameter, not the library's code -/
+def syncCall (W : DataWorld V) (L : Legacy) (o : Opts) (F : FuncDecl V)
+    (body : List V → List (Nat × V) → M V) (args : List V) (kwargs : List (Nat × V)) : M V := do
+  let p ← parseParams W L o F args kwargs
   emit .enterBody
-  let r ← W.body pa kw
+  let r ← body p.1 p.2
   parseResult W o F r
 
 end Utv.C04
